@@ -315,6 +315,70 @@ func c09History(c *caseCtx) {
 	c.distinct(fmt.Sprintf("hist|%d|%s|%d", n, probe.method, len(hist)))
 }
 
+// stripOptional removes optional fields so that the request relies on the documented defaults
+func stripOptional(g *genReq) {
+	mp := g.M["methodParameters"].(M)
+	delete(mp, "drawResolution")
+	bs, _ := g.M["biases"].([]interface{})
+	for _, b := range bs {
+		p, _ := b.(M)["props"].(M)
+		delete(p, "ordering")
+		delete(p, "referenceCriterionType")
+		if ap := subM(subM(p, "applier"), "params"); ap != nil {
+			delete(ap, "referenceCriterionType")
+		}
+	}
+}
+
+// error paths: a request that violates one documented constraint is rejected - and must leave no trace: the same
+// default-relying probe requests are answered with the same bytes before and after it (library and service handler)
+func c09ErrorPaths(c *caseCtx) {
+	cst := constraints[c.idx%len(constraints)]
+	ms := cst.methods
+	if ms == nil {
+		ms = methods
+	}
+	method := ms[(c.idx/len(constraints))%len(ms)]
+	var probes []*genReq
+	for i := 0; i < 14; i++ {
+		g := genRequest(c.rng, genOpts{method: methods[i%len(methods)], nBiases: 1 + c.rng.Intn(2), minCrit: 2, maxCrit: 4, minAlt: 2, maxAlt: 4, allFire: true})
+		stripOptional(g)
+		probes = append(probes, g)
+	}
+	type ans struct {
+		lib, http []byte
+		ok        bool
+		st        int
+	}
+	ask := func() []ans {
+		out := make([]ans, len(probes))
+		for i, g := range probes {
+			d := decide(g.body(), false)
+			st, hb := httpInproc("POST", "/api/decide", g.body())
+			out[i] = ans{d.JSON, hb, d.OK, st}
+			c.count("evaluations", 2)
+		}
+		return out
+	}
+	before := ask()
+	bad := validBase(method, c.rng)
+	cst.apply(bad.M)
+	decide(bad.body(), false)
+	httpInproc("POST", "/api/decide", bad.body())
+	c.count("evaluations", 2)
+	after := ask()
+	for i := range probes {
+		if before[i].ok != after[i].ok || !bytes.Equal(before[i].lib, after[i].lib) || before[i].st != after[i].st || (before[i].st == 200 && !bytes.Equal(before[i].http, after[i].http)) {
+			c.violate("history-dependent", fmt.Sprintf("after a request rejected for '%s' (%s) a valid request relying on defaults is answered differently", cst.name, method),
+				M{"rejected_request": bad.M, "probe": probes[i].M, "before": string(before[i].lib), "after": string(after[i].lib)})
+			return
+		}
+	}
+	c.count("error_paths_checked", 1)
+	c.count("nontrivial", 1)
+	c.distinct("err|" + cst.name + "|" + method)
+}
+
 func init() {
 	register(&propDef{
 		id: "C09",
@@ -323,11 +387,13 @@ func init() {
 			"report, every handed-on state, every received state and the original state are re-snapshotted through the live pointers the decorators kept and must equal the " +
 			"snapshots taken at return; reports must equal the data handed on; Evaluate must leave its input unchanged; result entries show the data the method received. " +
 			"Stream history: histories of 2..50 requests (incl. rejected ones): the probe request's bytes are unchanged afterwards and every earlier returned result " +
-			"re-marshals to the same bytes. Non-trivial = >=1 fired bias / every history; distinct = (method, fired names, all-considered, currentChoice kind) / (history length, method).",
+			"re-marshals to the same bytes. Stream errorPaths: every kind of rejected request of the constraint catalogue between two rounds of default-relying probes. Non-trivial = >=1 fired bias / every history; distinct = (method, fired names, all-considered, currentChoice kind) / (history length, method).",
 		assumptions: []string{"deep snapshots are taken by the decorators at the seam; the pristine registries must produce the same bytes as the decorated ones (else inconclusive)"},
 		streams: []*stream{
 			{name: "trace", n: tierN(35000, 700000), unit: 3500, run: c09Trace,
 				floors: map[string]int64{"input_untouched_checked": 30000, "late_mutation_checked_events": 20000, "all_considered": 5000, "current_from_considered": 2000}},
+			{name: "errorPaths", n: func(string) int { return len(constraints) * 3 }, unit: 20, run: c09ErrorPaths, floors: map[string]int64{"error_paths_checked": 150},
+				note: "every entry of the constraint catalogue (C20) x 3 methods: 14 default-relying probe requests before and after the rejected request"},
 			{name: "history", n: tierN(1200, 24000), unit: 150, run: c09History, floors: map[string]int64{"histories_checked": 1000, "earlier_results_rechecked": 5000}},
 		},
 	})
